@@ -310,7 +310,14 @@ func (e *kvElection) verifyLeadershipAfterReconnect() {
 
 	e.verifYield("reconnect.connok")
 	// Verify token is still valid
+	tokenBefore := e.Token()
 	isValid, err := e.validateToken(ctx)
+	if (err != nil || !isValid) && ctx.Err() == nil && e.IsLeader() && e.Token() != tokenBefore {
+		// A new term of this instance began while the record was being read: the
+		// verdict compared that term's record with the token of the term before
+		// it. Read once more, for the term that leads now.
+		isValid, err = e.validateToken(ctx)
+	}
 	if err != nil || !isValid {
 		log.Error("reconnect_verification_failed",
 			append(e.logWithContext(ctx),
